@@ -129,6 +129,8 @@ def boundary_sources():
         out.append((f"gen/arm_{n}", f"fn f(x: u32) {{\n    match x {{\n        1 => // arm => comment\n            {a},\n        _ => (({a})),\n    }}\n}}\n"))
         out.append((f"gen/sig_{n}", f"fn {a}(first: u32, second: &str) -> Result<u32, Error> where T: Clone {{\n}}\n"))
         out.append((f"gen/negimpl_{n}", f"unsafe impl<T: {a}> !Send for Wrapper<T> {{}}\nimpl<'a, T: ?Sized + {a}> !Sync for &'a mut T where T: Clone {{}}\n"))
+        out.append((f"gen/fieldgroups_{n}", f"struct S {{\n    {a}: u32,\n    bb: u32,\n\n    ccc: u32,\n    d: u32,\n}}\n"
+                    f"enum E {{\n    V {{\n        {a}: u32,\n        bb: u32,\n\n        ccc: u32,\n    }},\n    W = 1,\n    Xyz = 22,\n}}\n"))
         out.append((f"gen/quals_{n}", f"pub(crate) const unsafe extern \"C\" fn {a}<'a, T>(x: &'a mut T) -> impl Iterator<Item = &'a T> + 'a {{}}\npub async unsafe fn g{a}(self: Pin<&mut Self>) {{}}\n"))
     return out
 
